@@ -162,6 +162,7 @@ type xCase struct {
 	CH0    []*uint32 `json:"ch0"`
 	SH0    []*uint32 `json:"sh0"`
 	Ops    []xOpRec  `json:"ops"`
+	Final  [][]any   `json:"final,omitempty"` // catch-up kinds: the backend's final active chain
 }
 
 type xConfClient struct {
@@ -1658,6 +1659,7 @@ func TestVerifTxNotifier(t *testing.T) {
 		script []xStep
 		multi  bool
 		coll   *xCollParams
+		catch  *xCatchParams
 	}
 	var jobs []job
 	for k, sc := range xDirected {
@@ -1685,6 +1687,19 @@ func TestVerifTxNotifier(t *testing.T) {
 			lim = 6
 		}
 		jobs = append(jobs, job{ci: 600000 + k, coll: &fam[k], lim: lim})
+	}
+	// catch-up layer (verif_catchup_test.go): the enumerated family, all of it in
+	// the thorough tier, a seed-rotating half in the quick tier
+	cfam := xCatchFamily()
+	for k := range cfam {
+		if xTier() != "thorough" && k%2 != int(master.s%2) {
+			continue
+		}
+		lim := 144
+		if k%4 == 3 {
+			lim = 8
+		}
+		jobs = append(jobs, job{ci: 700000 + k, catch: &cfam[k], lim: lim})
 	}
 	if depth > 0 {
 		const alpha = 8
@@ -1719,6 +1734,10 @@ func TestVerifTxNotifier(t *testing.T) {
 				var c *xWorld
 				if j.coll != nil {
 					c = xCollCase(t, hc, j.ci, *j.coll, j.lim)
+					out.emit(c.rec)
+					continue
+				} else if j.catch != nil {
+					c = xCatchCase(t, hc, j.ci, *j.catch, j.lim)
 					out.emit(c.rec)
 					continue
 				} else if j.multi {
